@@ -40,13 +40,16 @@ def run(ctx):
                 "damage class, destination state, size)")
     ctx.assumptions = ["no reflink-capable filesystem: FICLONE is emulated for the success path",
                        "pre-existing destinations carry marker bytes distinct from any stored or damaged data"]
-    cache = ctx.new_cache()
-    destroot = ctx.new_dir("dest")
+    base = ctx.new_dir("base")        # cache and destinations on one file system (hard links!)
+    cache = os.path.join(base, "cache")
+    destroot = os.path.join(base, "dest")
+    os.makedirs(destroot)
     fic = {}
 
     def ficlone_driver(variant):
         if variant not in fic:
-            w = sysm.argv([ctx.scratch], "/dev/null", ficlone=True, all_in_op=True, timeout=3600)
+            w = sysm.argv([ctx.scratch] + ([ctx.scratch2] if ctx.scratch2 else []), "/dev/null", ficlone=True,
+                          all_in_op=True, timeout=3600)
             fic[variant] = drv.Driver(variant, outdir=ctx.outdir, wrapper=w)
         return fic[variant]
 
